@@ -213,10 +213,15 @@ def run_case(ctx, backend: str, init: str, kinds: List[str], chooser_factory, re
         pre = None
         if init != "absent":
             t0 = datashard.create_table(root, Schema(schema_id=7, fields=FIELDS))
-            if init in ("healthy", "pointer_lost"):
+            if init in ("healthy", "pointer_lost", "pointer_lost_big"):
                 t0.append_records([{"x": -1}])
             pre = P.read_table_independent(fetch)
-            if init in ("pointer_lost", "v0_pointer_lost"):
+            if init == "pointer_lost_big":
+                # a table with a long history: more than one listing page of (unreferenced) manifests under metadata/
+                for k in range(1100):
+                    store._put(f"tbl/metadata/manifests/old-{k:04d}.avro", b"")
+                store.SERVER_PAGE = 1000        # the real service's page size (the default of the fake is tiny, to exercise paging)
+            if init in ("pointer_lost", "v0_pointer_lost", "pointer_lost_big"):
                 drop_pointer()
         sc.log.clear()
         for i, k in enumerate(kinds):
@@ -287,7 +292,7 @@ def run_case(ctx, backend: str, init: str, kinds: List[str], chooser_factory, re
         except Exception as e:
             out["final"] = {"error": repr(e)[:200]}
             pointer_gone = (("tbl/" + P.HINT) not in store.objects) if store is not None else not os.path.exists(os.path.join(root, P.HINT))
-            if pointer_gone and init in ("pointer_lost", "v0_pointer_lost"):
+            if pointer_gone and init in ("pointer_lost", "v0_pointer_lost", "pointer_lost_big"):
                 # creators / openers do not rewrite a lost pointer (only a commit does): the table is then what the recovery
                 # rule says -- the highest metadata version on storage -- read here independently of the library
                 import re as _re
@@ -487,7 +492,7 @@ def model_expr(out: Dict[str, Any], evs: List[Tuple[int, str]]) -> str:
     cfgs = "{| cas := %s; lockkind := %s |}" % (("true", "GrantAll") if out["backend"] == "s3cas" else ("false", "Excl"))
     # the existing table: owner 99, metadata versions 0..k on storage (healthy / pointer_lost: one commit was made)
     init = {"absent": "absent", "healthy": "existing_n 99%nat 1%nat false", "pointer_lost": "existing_n 99%nat 1%nat true",
-            "v0_pointer_lost": "existing_n 99%nat 0%nat true"}[out["init"]]
+            "pointer_lost_big": "existing_n 99%nat 1%nat true", "v0_pointer_lost": "existing_n 99%nat 0%nat true"}[out["init"]]
     ev = "[" + "; ".join(f"{{| ce_actor := {ai}%nat; ce_kind := {k} |}}" for ai, k in evs) + "]"
     code = "(fun o => match o with Some u => Z.of_nat (S (S u)) | None => 1 end)"
     return (f"match crun_strict {cfgs} ({init}) {ev} 0%nat with "
@@ -616,7 +621,7 @@ def run(ctx) -> None:
     ctx.correspondence("create-schema", len(s_vals), s_bad)
     plans = []
     for backend in ("local", "s3cas"):
-        for init in ("absent", "healthy", "pointer_lost", "v0_pointer_lost"):
+        for init in ("absent", "healthy", "pointer_lost", "v0_pointer_lost") + (("pointer_lost_big",) if backend == "s3cas" else ()):
             sets = [["create", "create"], ["create", "create_append"], ["create", "open"], ["table", "create", "create"]]
             if quick:
                 sets = sets[:2] if init == "absent" else sets[1:2]
